@@ -247,9 +247,9 @@ def _make_spy_forecaster():
 
         def fit(self, y, X=None, fh=None, **fit_params):
             _record(self.tag, "fit", y=_series_info(y), X=_series_info(X), fh=_fh_info(fh),
-                    obj=id(self))
+                    obj=id(self), fit_params=dict(fit_params))
             self.inner_ = clone(self.inner)
-            self.inner_.fit(y, X, fh=fh, **fit_params)
+            self.inner_.fit(y, X, fh=fh)  # (fit_params are the spy's own, recorded above)
             self._is_fitted = True
             return self
 
